@@ -240,6 +240,7 @@ class Sched:
         self.exit_started = False
         self.popens = []
         self.livelock_limit = 80
+        self.annotate_kill = None
 
     # ---- threads / processes -------------------------------------------------------------
     def spawn(self, fn, name, proc, daemon=False, is_main=False):
@@ -317,7 +318,8 @@ class Sched:
                     self.trace.append(("T", obj.full, obj.label))
                     return obj
                 if kind == "K":
-                    self.trace.append(("K", obj.label, stack_sig_proc(self, obj)))
+                    self.trace.append(("K", obj.label, stack_sig_proc(self, obj),
+                                       self.annotate_kill(obj) if self.annotate_kill else None))
                     self.kill_proc(obj, me, self.kill_code)
                     if me is not None and me.killed:
                         return "SELF"
